@@ -950,6 +950,12 @@ def thread_check(prop, tier, seed, t0, syss, kinds, real_only=()):
                   and re.search(r"sys=(\w+)", l).group(1) in syss + list(real_only)]
     explored = {}
     model_bad = []
+    hot, changed = changed_ops()
+    hot = sorted(o for o in hot if o in syss)
+    tier0 = tier
+    if hot and tier == "quick":
+        # the source of a racing operator differs from the pinned tree: use the thorough exploration
+        tier = "thorough"
     for sysname in syss:
         cfgs = THREAD_EXPLORE[sysname] if tier == "thorough" else THREAD_EXPLORE[sysname][:3]
         for cfg in cfgs:
@@ -1066,10 +1072,11 @@ def thread_check(prop, tier, seed, t0, syss, kinds, real_only=()):
         model_exhaustive_exploration=explored,
         real_exhaustive_schedule_prefixes=dict(length=L, runs=n_exh),
         real_only_runs=len(ro_lines),
+        source_files_differing_from_pinned_tree=changed, components_searched_deeper=hot,
         hooked_build_sequential_scripts=len(seq_scripts), hooked_build_sequential_mismatches=len(seq_mis),
         samples=[dict(script=a, crate_trace=h) for a, h in list(zip(lines, real))[:2] + list(zip(lines, real))[-2:]],
     )
-    write_evidence(prop, tier, seed, t0, cov, len(viols),
+    write_evidence(prop, tier0, seed, t0, cov, len(viols),
                    assumptions=["sequentially consistent interleavings at the granularity of instrumented accesses",
                                 "passive sink; member threads stop once told to"])
     for l in out:
